@@ -155,8 +155,13 @@ def generate(rng, tier):
         elif kind == "big":
             a, b = g.connect(), g.connect()
             h = rng.choice(IDS)
-            g.send(a, f"REGISTER {h}{eol}"); g.send(b, f"CONNECT {IDS[(IDS.index(h) + 1) % 3]} {h}{eol}")
-            g.ops.append([1, b] + lp(g.data(b, 32 + rng.choice([0, 5000]))))
+            g.send(a, f"REGISTER {h}{eol}")
+            if rng.random() < 0.35:
+                # the connector pipelines everything in one write: CONNECT line, its 32 identity bytes and the first payload
+                g.ops.append([1, b] + lp(f"CONNECT {IDS[(IDS.index(h) + 1) % 3]} {h}{eol}".encode() + g.data(b, 32 + rng.choice([100, 4064, 4065, 6000, 20000]))))
+            else:
+                g.send(b, f"CONNECT {IDS[(IDS.index(h) + 1) % 3]} {h}{eol}")
+                g.ops.append([1, b] + lp(g.data(b, 32 + rng.choice([0, 5000]))))
             heavy = rng.random() < (0.4 if tier != "thorough" else 0.08)      # the model's digest loop is slow: few heavy transfers
             for _ in range(rng.randrange(1, 4)):
                 x = rng.choice([a, b])
